@@ -249,6 +249,21 @@ EXC = {n: getattr(builtins, n) for n in ('KeyError', 'IndexError', 'LookupError'
                                          'AttributeError', 'RuntimeError')}
 
 
+import io  # noqa
+
+
+class MultiError(LookupError, ValueError):
+    """several direct bases: a handler naming any of them (or their bases) matches"""
+
+
+class DeepMultiError(MultiError):
+    pass
+
+
+EXC.update({'MultiError': MultiError, 'DeepMultiError': DeepMultiError, 'UnsupportedOperation': io.UnsupportedOperation,
+            'OSError': OSError})
+
+
 class Falsy(int):
     vid = '0'
 
